@@ -1,5 +1,6 @@
 """C13 - missing-data discovery reports exactly the locations that have no
 data."""
+import copy
 import itertools
 
 from xv import core, fn as xfn
@@ -210,9 +211,14 @@ def check_case(case):
             foreign = 99 if case["ctype"] == "num" else "nope"
             pcases = [{a0: coords[a0][0]}, {a0: foreign}]
             pcombos = {a: coords[a] for a in names[1:]}
+            # (the library gets its own copies, and the same ones twice: a
+            # second identical query must give the same answer)
+            lcases, lcombos = copy.deepcopy(pcases), copy.deepcopy(pcombos)
             try:
-                res = parse_into_cases(combos=pcombos, cases=pcases, ds=ds,
+                res = parse_into_cases(combos=lcombos, cases=lcases, ds=ds,
                                        method=method)
+                res2 = parse_into_cases(combos=lcombos, cases=lcases, ds=ds,
+                                        method=method)
             except Exception as e:
                 vio.append((key("parse-raised:" + type(e).__name__),
                             "parse_into_cases raised %r" % e))
@@ -225,10 +231,33 @@ def check_case(case):
                     lab = tuple(full[a] for a in fn_args)
                     if c[a0] == foreign or lab in wset:
                         wantp.append(full)
-            if res != wantp:
+            if res != wantp or res2 != wantp:
+                bad = res if res != wantp else res2
                 vio.append((key("parse"),
                             "parse_into_cases reported %r, expected %r"
-                            % (res[:3], wantp[:3])))
+                            % (bad[:3], wantp[:3])))
+            # the whole grid as combos only, then a query over fewer
+            # parameters (one slice of the data) right afterwards
+            queries = [(ds, list(names))]
+            if len(names) >= 2:
+                queries.append((ds.isel({names[-1]: 0}, drop=True),
+                                list(names[:-1])))
+            for qds, qnames in queries:
+                qwant = [dict(zip(qnames, lab))
+                         for lab in oracle(qds, qnames, method)]
+                try:
+                    qres = parse_into_cases(
+                        combos={a: list(coords[a]) for a in qnames}, ds=qds,
+                        method=method)
+                except Exception as e:
+                    vio.append((key("parse-raised:" + type(e).__name__),
+                                "parse_into_cases (combos only) raised %r" % e))
+                    continue
+                if qres != qwant:
+                    vio.append((key("parse-combos"),
+                                "parse_into_cases(combos over %r) reported "
+                                "%r, expected %r" % (qnames, qres[:3],
+                                                     qwant[:3])))
     return {"nontrivial": nontrivial > 0,
             "outcome": "lattice-chunk",
             "violations": vio, "counts": {"datasets": ndatasets,
